@@ -10,6 +10,9 @@ import (
 
 type brokerPublishQOS0Transaction struct {
 	brokerPublishTransactionBase
+	// TopicID of the REGISTER the transaction waits a REGACK for. Set
+	// before the transaction is stored, never changed afterwards.
+	registerTopicID uint16
 }
 
 func newBrokerPublishQOS0Transaction(ctx context.Context, h *handler1, msgID uint16) *brokerPublishQOS0Transaction {
@@ -24,7 +27,7 @@ func newBrokerPublishQOS0Transaction(ctx context.Context, h *handler1, msgID uin
 	t.RetryTransaction = transactions.NewRetryTransaction(
 		ctx, h.cfg.RetryDelay, h.cfg.RetryCount, t.resend,
 		func() {
-			h.brokerTransactions.Delete(msgID)
+			h.brokerQOS0Transactions.Delete(msgID)
 			tLog.Debug("Deleted.")
 		},
 	)
